@@ -53,8 +53,8 @@ class Report:
                 key = '%s:%s' % (kind, o['name'])
             else:
                 stack = o.get('call_stack') or []
-                root = stack[0].split('@')[0] if stack else fnname
-                leaf = fnname
+                root = o.get('root') or (stack[0].split('@')[0] if stack else fnname)
+                leaf = o.get('leaf') or fnname
                 key = '%s:%s' % (kind, o.get('objdesc') or o.get('detail_key') or leaf)
                 if root != leaf:
                     key += ':in:' + leaf
